@@ -333,7 +333,60 @@ def c18_run(ctx):
                     problems.append((f"record-raises:{m}", f"{type(e).__name__}: {str(e)[:80]}"))
         if len(samples) < 2:
             samples.append({"sig": sig, "flavor": fl, "layouts": list(layouts), "type_of_nested3": str(ak.type(layouts["nested3"]))})
-    return problems, {"awkward_calls": n}, samples
+    raw, nraw = raw_momentum_records(ctx)
+    problems += raw
+    return problems, {"awkward_calls": n, "raw_momentum_record_calls": nraw}, samples
+
+
+RAW_CODE = r"""
+import sys, json
+sys.path.insert(0, %r); sys.path.insert(0, %r)
+import numpy, awkward as ak, vector
+vector.register_awkward()
+from harness.arrays import COORD_FIELDS
+out = []
+specs = [({"px": [1.0, 2.0], "py": [2.0, 3.0], "pz": [0.5, 0.1], "E": [5.0, 6.0], "charge": [1, -1]}, "Momentum4D", 4),
+         ({"pt": [1.0, 2.0], "phi": [0.3, -1.0], "eta": [0.5, 0.1], "mass": [0.1, 0.2], "charge": [1, -1]}, "Momentum4D", 4),
+         ({"px": [1.0, 2.0], "py": [2.0, 3.0], "pz": [0.5, 0.1], "q": [1, -1]}, "Momentum3D", 3),
+         ({"x": [1.0, 2.0], "y": [2.0, 3.0], "z": [0.5, 0.1], "t": [5.0, 6.0], "charge": [1, -1]}, "Vector4D", 4)]
+n = 0
+for fields, name, dim in specs:
+    a = ak.zip(fields, with_name=name)
+    extras = [f for f in fields if f not in COORD_FIELDS]
+    for m, args in (("rotateZ", [0.3]), ("rotateX", [0.3]), ("scale", [2.0]), ("to_xy", []), ("unit", []), ("boostX", [0.3])):
+        if not hasattr(a, m):
+            continue
+        n += 1
+        try:
+            r = getattr(a, m)(*args)
+        except Exception as e:
+            out.append(["raw-raises:" + m, "%%s on raw %%s %%s: %%s" %% (m, name, list(fields), type(e).__name__)])
+            continue
+        want_dim = 2 if m == "to_xy" else dim
+        got_dim = 2 if isinstance(r, vector.Vector2D) else 3 if isinstance(r, vector.Vector3D) else 4 if isinstance(r, vector.Vector4D) else 0
+        cf = [f for f in ak.fields(r) if f in COORD_FIELDS]
+        gen = {"px": "x", "py": "y", "pt": "rho", "pz": "z", "E": "t", "e": "t", "energy": "t", "M": "tau", "m": "tau", "mass": "tau"}
+        g = [gen.get(f, f) for f in cf]
+        stale = len(g) != len(set(g)) or (("x" in g) and ("rho" in g))
+        momentum_named_input = any(f in gen for f in fields)
+        if got_dim != want_dim or stale or [f for f in ak.fields(r) if f not in COORD_FIELDS] != extras:
+            key = "awkward-raw-momentum-fields" if momentum_named_input and (got_dim != want_dim or stale) else "raw-record:" + m
+            out.append([key, "%%s on raw %%s%%s returns %%s with fields %%s" %% (m, name, list(fields), type(r).__name__, ak.fields(r))])
+print("JSON" + json.dumps([n, out]))
+"""
+
+
+def raw_momentum_records(ctx):
+    """records built with ak.zip(..., with_name=...) under registered behaviors (the usual idiom; vector.zip renames momentum fields)"""
+    import json
+    import subprocess
+    import sys
+    p = subprocess.run([sys.executable, "-c", RAW_CODE % (C.VERIF, C.VERIF + "/tools")], capture_output=True, text=True, timeout=600)
+    line = [l for l in p.stdout.splitlines() if l.startswith("JSON")]
+    if not line:
+        return [("raw-record-harness", "subprocess failed: " + p.stderr[-300:])], 0
+    n, out = json.loads(line[0][4:])
+    return [tuple(x) for x in out], n
 
 
 # ------------------------------------------------------------------------------------------------ NumPy arrays (C19)
